@@ -15,6 +15,7 @@ type flowBuilder struct {
 	filterTree         internaltypes.FilterTreeI
 	flowReps           map[string]internaltypes.FlowRepI
 	foreignRoot        *EntryPoint
+	incorporating      map[string]struct{} // flows whose connections are being built (cycle guard)
 	nodeBuilder        *graphNodeBuilder
 	processorManager   *processors.ProcessorManager
 	resourceManagement *resources.ResourceManagement
@@ -68,6 +69,7 @@ func (fb *flowBuilder) buildFlow(flowRep internaltypes.FlowRepI) error {
 	log.Info().Msgf("Building flow %s", flowRep.GetName())
 
 	flow := NewFlow(fb.nodeBuilder, flowRep, fb.resourceManagement)
+	fb.incorporating = map[string]struct{}{flowRep.GetName(): {}}
 
 	// process request and response connections
 	if err := fb.buildConnections(
@@ -254,6 +256,12 @@ func (fb *flowBuilder) incorporateFlow(flowName string, targetFlowDir *FlowDirec
 	if !exists {
 		return fmt.Errorf("flow '%s' not found", flowName)
 	}
+
+	if _, found := fb.incorporating[flowName]; found {
+		return fmt.Errorf("circular reference to flow '%s'", flowName)
+	}
+	fb.incorporating[flowName] = struct{}{}
+	defer delete(fb.incorporating, flowName)
 
 	// build connections from the source flow and add all to target FlowDirection
 	connections := flowRep.GetFlow().GetFlowConnections(targetFlowDir.flowType)
